@@ -772,6 +772,17 @@ func TestC23Regressions(t *testing.T) {
 	})
 }
 
+// (second regression, kept in its own test function so that it shows separately in the output)
+func TestC23RegressionPrunedFork(t *testing.T) {
+	defer kit.Flush()
+	// genesis has two children b1, b2 (#1); b2 signals a scheduled change (delay 0). Finalising b1 prunes b2 from the
+	// block tree; ApplyScheduledChanges(b1) must drop b2's change silently (pinned tree: "cannot verify ancestry:
+	// getting header: pebble: not found", and the same error on every later finalisation).
+	blocks := c23Fixed([][4]int{{0, 0, 0, 0}, {0, 1, 0, 0}, {1, 1, 0, 0}, {3, 0, 0, 0}})
+	// import b1, b2; finalise b1; import b3 (child of b1, S+0), b4; finalise b3 => set 1
+	c23Run(t, blocks, true, c23Script([][2]int{{0, 0}, {0, 0}, {1, 0}, {0, 0}, {0, 0}, {1, 0}}), false)
+}
+
 // TestC23KnownForcedRange is the witness of finding C23-forced-change-setid-range: block b1 #1 signals a forced
 // change with delay 0 and median-last-finalised 0; it is enacted at the import of b1. Substrate records
 // (set 0, last block 0), so block #1 belongs to set 1; the pinned tree reports set 0 for #1.
